@@ -73,7 +73,7 @@ Ltac ok_leaf :=
 Ltac head_of t := lazymatch t with ?f _ => head_of f | _ => t end.
 Create HintDb kv_sf.
 #[export] Hint Unfold get_hash hash_or_empty put_hash hfloat_store hfloat_follow get_zset put_zset
-  get_list put_list get_stream xadd_apply set_apply_ttl incr_by : kv_sf.
+  get_list put_list get_stream xadd_apply set_apply_ttl incr_by follow_hint : kv_sf.
 Ltac ok_exec :=
   match goal with |- okstep _ (snd ?x) => let h := head_of x in unfold h; cbv beta zeta end;
   repeat (repeat autounfold with kv_sf; break_match); repeat autounfold with kv_sf; ok_leaf.
